@@ -209,10 +209,6 @@ Section Natives.
             match rec (TkKeys keyfn tb []) s with
             | ROk (ONorm keys) _ s1 =>
                 let h := st_heap s1 in
-                if negb (match nth_error h p with
-                         | Some tb1 => list_eqb tkey_eqb (map fst tb) (map fst tb1)
-                         | None => false
-                         end) then RUnspec 12 else
                 if str_eqb name n_sort then
                   let sorted := stable_sort (sort_lt h) (combine keys tb) in
                   let out := fold_left (fun acc kv => s_insert acc (fst (snd kv)) (snd (snd kv)))
@@ -224,15 +220,11 @@ Section Natives.
                   | k0 :: kr =>
                       let i := best_index (cmp_is h (if str_eqb name n_min then Lt else Gt))
                                           kr 1 k0 0 in
-                      match nth_error (st_heap s1) p with
-                      | None => RUnspec 5
-                      | Some tb1 =>
-                          let '(k, v) := match nth_error tb1 i with
-                                         | Some (k, v) => (of_key k, v)
-                                         | None => (VNil, VNil)
-                                         end in
-                          let '(q, s2) := alloc_table (row_table k v) s1 in ok [VTable q] empty_env s2
-                      end
+                      let '(k, v) := match nth_error tb i with
+                                     | Some (k, v) => (of_key k, v)
+                                     | None => (VNil, VNil)
+                                     end in
+                      let '(q, s2) := alloc_table (row_table k v) s1 in ok [VTable q] empty_env s2
                   end
             | ROk (OErr _) _ s1 => err ETaskFailure empty_env s1
             | ROk (ORet _) _ _ => RUnspec 5
@@ -287,8 +279,8 @@ Section Natives.
       rewrite F_unfold by lia. cbv zeta. rewrite (eval_native_keyed _ _ _ _ Hn).
       cbn [length Nat.ltb Nat.leb last_n skipn Nat.sub bump st_heap]. rewrite Hp.
       unfold tb at 1. fold tb.
-      lift E1 N1. unfold ok at 1. cbv beta iota zeta. rewrite Hh, Hp.
-      rewrite list_eqb_tkey_refl. cbn [negb]. change (str_eqb n_sort n_sort) with true. cbv iota.
+      lift E1 N1. unfold ok at 1. cbv beta iota zeta. rewrite Hh.
+      change (str_eqb n_sort n_sort) with true. cbv iota.
       unfold alloc_table. rewrite Hh. reflexivity.
     - cbn [st_heap set_heap]. f_equal. f_equal.
       cbn [rev app]. rewrite combine_map_keyed.
@@ -346,8 +338,8 @@ Section Natives.
       rewrite F_unfold by lia. cbv zeta. rewrite (eval_native_keyed _ _ _ _ Hn).
       cbn [length Nat.ltb Nat.leb last_n skipn Nat.sub bump st_heap]. rewrite Hp.
       unfold tb at 1. fold tb.
-      lift E1 N1. unfold ok at 1. cbv beta iota zeta. rewrite Hh, Hp.
-      rewrite list_eqb_tkey_refl. cbn [negb]. rewrite Hns. cbv iota.
+      lift E1 N1. unfold ok at 1. cbv beta iota zeta. rewrite Hh.
+      rewrite Hns. cbv iota.
       cbn [rev app]. unfold tb at 1. cbn [map].
       fold (want_of name).
       unfold entry in *. rewrite Hb. destruct (best_from _ _ _ _) as [bk bv].
